@@ -235,6 +235,11 @@ def run(chk):
         # the steps that belong to this property's operations
         from .chains import run_chains
         run_chains(chk, 60, cfg="PipelineGen_l6.cfg", only_prop="C08")
+    # the registry as a state machine: every history of spec/Registry.tla
+    # replayed into the real class (identity of repeated requests, generic
+    # names never handed out before)
+    from .c19 import registry_replay
+    registry_replay(chk, chk.tier == "quick")
     # the pure helper functions behind this property (spec/Helpers.tla)
     from .helpers import run_helpers
     run_helpers(chk, ('low', 'split'))
